@@ -32,6 +32,8 @@ import (
 
 	"github.com/projectcalico/calico/felix/bpf/conntrack"
 	"github.com/projectcalico/calico/felix/bpf/conntrack/timeouts"
+	v2 "github.com/projectcalico/calico/felix/bpf/conntrack/v2"
+	v3 "github.com/projectcalico/calico/felix/bpf/conntrack/v3"
 	v4 "github.com/projectcalico/calico/felix/bpf/conntrack/v4"
 	"github.com/projectcalico/calico/felix/bpf/maps"
 	"github.com/projectcalico/calico/felix/bpf/mock"
@@ -166,19 +168,21 @@ type c14H struct {
 	seq    int
 	nextID int
 
-	hooksOn   bool
-	inScan    bool
-	dirty     map[string]bool // ct keys changed since last push to native
-	pushing   bool
-	classes   map[string]bool
-	ops       []string
-	raceHits  int
-	repoints  int
-	faultLive int
-	cfg       map[string]string
-	fault     func(h *c14H, mapName, key string) error // scripted lookup fault (scripted tests)
-	boundary  int
-	cleanerRm int
+	hooksOn     bool
+	inScan      bool
+	dirty       map[string]bool // ct keys changed since last push to native
+	pushing     bool
+	classes     map[string]bool
+	ops         []string
+	raceHits    int
+	repoints    int
+	faultLive   int
+	origin      int // 0: entries written by the current dataplane; 2 / 3: initial entries come from an upgraded version-2 / version-3 map
+	creatingOld bool
+	cfg         map[string]string
+	fault       func(h *c14H, mapName, key string) error // scripted lookup fault (scripted tests)
+	boundary    int
+	cleanerRm   int
 }
 
 func (h *c14H) now() int64 { return h.clock.KTimeNanos() }
@@ -241,7 +245,111 @@ func (h *c14H) fwdBytes(c *c14Conn) []byte {
 	return append([]byte{}, conntrack.NewValueNATForward(ls, 0, k).AsBytes()...)
 }
 
+// upgraded encodes the entry the way an OLDER Felix's dataplane wrote it (conntrack map
+// version 2 or 3, real constructors of that version) and runs it through the real per-entry
+// upgrade chain to the current version, as maps.Upgrade does for every entry of an old map
+// when Felix starts.  What the scanner then judges must still be the connection the old
+// entry described (protocol, TCP state, flags, last_seen).
+func (h *c14H) upgraded(c *c14Conn, fwd bool) (string, []byte) {
+	s := c.st
+	ls := time.Duration(s.lastSeen)
+	key := c.key
+	if fwd {
+		key, ls = c.fwdKey, time.Duration(c.fwdLast)
+	}
+	var uk, uv maps.Upgradable
+	switch {
+	case h.origin == 2:
+		created := ls - time.Duration(1+c.id)*time.Minute // v2 entries carry their creation time
+		l2 := func(l c14Leg) v2.Leg {
+			return v2.Leg{SynSeen: l.syn, AckSeen: l.ack, FinSeen: l.fin, RstSeen: l.rst, Approved: true}
+		}
+		var val v2.Value
+		switch {
+		case fwd:
+			var rk v2.Key
+			copy(rk[:], c.key)
+			val = v2.NewValueNATForward(created, ls, 0, rk)
+		case c.nat:
+			val = v2.NewValueNATReverse(created, ls, uint16(s.flags), l2(s.a), l2(s.b), net.IPv4(0, 0, 0, 0), net.IPv4(10, 96, 0, 10), 80)
+		default:
+			val = v2.NewValueNormal(created, ls, uint16(s.flags), l2(s.a), l2(s.b))
+		}
+		// exactly what maps.Upgrade does with an entry of a version-2 map
+		uk, uv = conntrack.GetKeyValueTypeFromVersion(2, []byte(key), val.AsBytes())
+		for i := 2; i < conntrack.MapParams.Version; i++ {
+			uk, uv = uk.Upgrade(), uv.Upgrade()
+		}
+	case h.ipver == 4:
+		l3 := func(l c14Leg) v3.Leg {
+			return v3.Leg{SynSeen: l.syn, AckSeen: l.ack, FinSeen: l.fin, RstSeen: l.rst, Approved: true}
+		}
+		var val v3.Value
+		switch {
+		case fwd:
+			var rk v3.Key
+			copy(rk[:], c.key)
+			val = v3.NewValueNATForward(ls, 0, rk)
+		case c.nat:
+			val = v3.NewValueNATReverse(ls, uint16(s.flags), l3(s.a), l3(s.b), net.IPv4(0, 0, 0, 0), net.IPv4(10, 96, 0, 10), 80)
+		default:
+			val = v3.NewValueNormal(ls, uint16(s.flags), l3(s.a), l3(s.b))
+		}
+		if !fwd {
+			binary.LittleEndian.PutUint64(val[v3.VoRSTSeen:], uint64(s.rstTS))
+		}
+		var k3 v3.Key
+		copy(k3[:], key)
+		uk, uv = k3.Upgrade(), val.Upgrade()
+	default:
+		l3 := func(l c14Leg) v3.Leg {
+			return v3.Leg{SynSeen: l.syn, AckSeen: l.ack, FinSeen: l.fin, RstSeen: l.rst, Approved: true}
+		}
+		var val v3.ValueV6
+		switch {
+		case fwd:
+			var rk v3.KeyV6
+			copy(rk[:], c.key)
+			val = v3.NewValueV6NATForward(ls, 0, rk)
+			// the legacy constructor copies only the first 16 (IPv4 key size) bytes of the reverse
+			// key; the version-3 dataplane wrote the whole key
+			copy(val[v3.VoRevKeyV6:v3.VoRevKeyV6+v3.KeyV6Size], rk[:])
+		case c.nat:
+			val = v3.NewValueV6NATReverse(ls, uint16(s.flags), l3(s.a), l3(s.b), nil, nil, 80)
+		default:
+			val = v3.NewValueV6Normal(ls, uint16(s.flags), l3(s.a), l3(s.b))
+		}
+		if !fwd {
+			binary.LittleEndian.PutUint64(val[v3.VoRSTSeen:], uint64(s.rstTS))
+		}
+		var k3 v3.KeyV6
+		copy(k3[:], key)
+		uk, uv = k3.Upgrade(), val.Upgrade()
+	}
+	return string(uk.AsBytes()), append([]byte{}, uv.AsBytes()...)
+}
+
 func (h *c14H) store(c *c14Conn, tracking, fwd bool) {
+	if h.creatingOld {
+		put := func(f bool) {
+			k, v := h.upgraded(c, f)
+			want := c.key
+			if f {
+				want = c.fwdKey
+			}
+			if k != want {
+				h.tb.Fatalf("C14: the conntrack map upgrade changed the key of an entry: %x -> %x", want, k)
+			}
+			h.ct.put(k, v)
+		}
+		if tracking {
+			put(false)
+		}
+		if fwd && c.nat && c.fwdKey != "" {
+			put(true)
+		}
+		return
+	}
 	if tracking {
 		h.ct.put(c.key, h.trackingBytes(c))
 	}
@@ -851,6 +959,12 @@ func (h *c14H) create() {
 	if rapid.IntRange(0, 5).Draw(t, "connlimit") == 0 {
 		c.st.flags |= v4.FlagConnLimitIn
 	}
+	if h.creatingOld {
+		c.st.flags &= 0xffff // versions 2 and 3 have 16 flag bits
+		if h.origin == 2 {
+			c.st.rstTS = 0 // version 2 had no rst_seen; the connection never recorded a RST time
+		}
+	}
 	// idle time relative to the timeout that applies to this protocol/state
 	th := c14Threshold(h.to, c.st)
 	var age time.Duration
@@ -901,7 +1015,11 @@ func (h *c14H) create() {
 		h.byKey[c.fwdKey] = c
 	}
 	h.store(c, true, true)
-	h.ops = append(h.ops, fmt.Sprintf("new(p%d,nat=%v)", c.st.proto, c.nat))
+	what := "new"
+	if h.creatingOld {
+		what = fmt.Sprintf("upgraded-from-v%d", h.origin)
+	}
+	h.ops = append(h.ops, fmt.Sprintf("%s(p%d,nat=%v)", what, c.st.proto, c.nat))
 }
 
 func (h *c14H) scan() {
@@ -934,6 +1052,22 @@ func c14NewH(t *rapid.T, rec *ev.Recorder, ipver int, native *cnative.Proc) *c14
 	h.sc = conntrack.NewScanner(h.ct, kfb, vfb, nil, "Disabled", h.ccq, ipver, &c14Cleaner{h}, lc)
 	if h.sc == nil {
 		t.Fatalf("HARNESS-GAP: NewScanner returned nil")
+	}
+	// where the map's initial contents come from: written by the current dataplane, or left
+	// by an older Felix and converted by the upgrade chain at start-up (version 2 is IPv4 only)
+	origins := []int{0, 0, 3}
+	if ipver == 4 {
+		origins = []int{0, 0, 2, 2, 3}
+	}
+	h.origin = rapid.SampledFrom(origins).Draw(t, "mapOrigin")
+	if h.origin != 0 {
+		h.creatingOld = true
+		n := rapid.IntRange(1, 4).Draw(t, "nUpgradedEntries")
+		for i := 0; i < n; i++ {
+			h.create()
+		}
+		h.creatingOld = false
+		h.class(fmt.Sprintf("initial-map-upgraded-from-v%d", h.origin))
 	}
 	return h
 }
@@ -1179,5 +1313,261 @@ func TestVerifC14RegressPartialTimeoutConfig(t *testing.T) {
 	}
 	if h.present(old.key) {
 		t.Fatalf("C14 VIOLATION (liveness): UDP flow idle 61s (default UDP timeout %v) still present after two scans", want.UDPTimeout)
+	}
+}
+
+// ---- the upgrade chain keeps the meaning of every field -----------------------------------------
+
+type c14OldLeg struct {
+	seqno                                uint32
+	syn, ack, fin, rst, approved, opener bool
+	ifindex                              uint32
+}
+
+func c14GenOldLeg(t *rapid.T, label string) c14OldLeg {
+	bits := rapid.IntRange(0, 63).Draw(t, label+"Bits")
+	return c14OldLeg{
+		seqno: rapid.Uint32().Draw(t, label+"Seqno"),
+		syn:   bits&1 != 0, ack: bits&2 != 0, fin: bits&4 != 0, rst: bits&8 != 0, approved: bits&16 != 0, opener: bits&32 != 0,
+		ifindex: rapid.Uint32().Draw(t, label+"Ifindex"),
+	}
+}
+
+// TestVerifC14UpgradePreservesFields: entries of an old conntrack map (version 2, version 3 IPv4/IPv6),
+// built with that version's constructors from generated field values, are run through the real
+// upgrade chain; the current-version entry must describe the same connection: every field that
+// exists in both versions reads the same through each version's own accessors, fields that are
+// new in the current version are zero (in particular rst_seen for version-2 entries, which is
+// what entryDone consults), also when read through the real C struct (cnative).
+func TestVerifC14UpgradePreservesFields(t *testing.T) {
+	ev.Quiet()
+	rec := ev.New("C14", "upgrade-chain",
+		"rapid: generated version-2 (IPv4) and version-3 (IPv4/IPv6) conntrack entries of every type (normal, NAT forward, NAT reverse) with random "+
+			"timestamps, 16-bit flags, leg seqno/flag bits/ifindex, NAT addresses/ports, reverse key, are converted by the real chain "+
+			"(GetKeyValueTypeFromVersion + Upgrade() as maps.Upgrade does for v2; Value/Key.Upgrade() for v3); common fields must read the same through "+
+			"the old and the current accessors, new fields must be zero, and the C struct calico_ct_value must read the same rst_seen/last_seen/type/flags. "+
+			"Non-trivial = TCP-state-bearing entry (normal / NAT reverse) with non-zero flags and leg bits; distinct = (chain, type, flag/leg classes)",
+		"the upgrade from a version-3 map is exercised through the v3 types' Upgrade() methods, not through GetKeyValueTypeFromVersion(3, ...) (see report: that dispatch returns current-version types)")
+	defer rec.Write()
+	_, layouts, err := cnative.StartC13()
+	if err != nil {
+		cnative.Inconclusive(t, err)
+	}
+	t.Cleanup(func() {
+		for _, l := range layouts {
+			l.Close()
+		}
+	})
+	rapid.Check(t, func(t *rapid.T) {
+		chain := rapid.SampledFrom([]string{"v2->v4", "v2->v4", "v3->v4", "v3->v4/ipv6"}).Draw(t, "chain")
+		typ := rapid.SampledFrom([]string{"normal", "nat-fwd", "nat-rev"}).Draw(t, "entryType")
+		ipver := 4
+		if chain == "v3->v4/ipv6" {
+			ipver = 6
+		}
+		lastSeen := time.Duration(rapid.Int64Range(1, 1<<62).Draw(t, "lastSeen"))
+		created := time.Duration(rapid.Int64Range(1, int64(lastSeen)).Draw(t, "created"))
+		rstSeen := uint64(0)
+		if chain != "v2->v4" && rapid.Bool().Draw(t, "hasRstSeen") {
+			rstSeen = rapid.Uint64Range(1, 1<<62).Draw(t, "rstSeen")
+		}
+		flags := uint16(rapid.OneOf(rapid.Uint16(), rapid.SampledFrom([]uint16{0, 1, 2, 0x100, 0x8000, 0xffff})).Draw(t, "flags"))
+		la, lb := c14GenOldLeg(t, "legA"), c14GenOldLeg(t, "legB")
+		origPort := rapid.Uint16().Draw(t, "origPort")
+		origSPort := rapid.Uint16().Draw(t, "origSPort")
+		natSPort := rapid.Uint16().Draw(t, "natSPort")
+		al := 4
+		if ipver == 6 {
+			al = 16
+		}
+		tun := net.IP(rapid.SliceOfN(rapid.Byte(), al, al).Draw(t, "tunIP"))
+		orig := net.IP(rapid.SliceOfN(rapid.Byte(), al, al).Draw(t, "origIP"))
+		proto := rapid.SampledFrom([]uint8{6, 17, 1, 132}).Draw(t, "proto")
+		pa, pb := rapid.Uint16().Draw(t, "portA"), rapid.Uint16().Draw(t, "portB")
+		ipA := net.IP(rapid.SliceOfN(rapid.Byte(), al, al).Draw(t, "addrA"))
+		ipB := net.IP(rapid.SliceOfN(rapid.Byte(), al, al).Draw(t, "addrB"))
+
+		// what the old entry says, read through the OLD version's accessors
+		type view struct {
+			typ                    uint8
+			flags                  uint32
+			lastSeen, rstSeen      int64
+			a, b                   c14OldLeg
+			origIP, origSIP, tunIP string
+			origPort, origSPort    uint16
+			revKey                 string
+			natSPort               uint16
+		}
+		var old view
+		var oldKey []byte
+		var newK, newV maps.Upgradable
+		switch chain {
+		case "v2->v4":
+			mk := func(l c14OldLeg) v2.Leg {
+				return v2.Leg{Seqno: l.seqno, SynSeen: l.syn, AckSeen: l.ack, FinSeen: l.fin, RstSeen: l.rst, Approved: l.approved, Opener: l.opener, Ifindex: l.ifindex}
+			}
+			k := v2.NewKey(proto, ipA, pa, ipB, pb)
+			var v v2.Value
+			switch typ {
+			case "normal":
+				v = v2.NewValueNormal(created, lastSeen, flags, mk(la), mk(lb))
+			case "nat-fwd":
+				v = v2.NewValueNATForward(created, lastSeen, flags, v2.NewKey(proto, ipB, pb, orig, origPort))
+				v.SetNATSport(natSPort)
+			default:
+				v = v2.NewValueNATReverseSNAT(created, lastSeen, flags, mk(la), mk(lb), tun, orig, orig, origPort)
+				v.SetOrigSport(origSPort)
+			}
+			old = view{typ: v.Type(), flags: uint32(v.Flags()), lastSeen: v.LastSeen()}
+			if typ == "nat-fwd" {
+				old.revKey, old.natSPort = string(v.ReverseNATKey().AsBytes()), v.NATSPort()
+			} else {
+				d := v.Data()
+				cv := func(l v2.Leg) c14OldLeg {
+					return c14OldLeg{l.Seqno, l.SynSeen, l.AckSeen, l.FinSeen, l.RstSeen, l.Approved, l.Opener, l.Ifindex}
+				}
+				old.a, old.b = cv(d.A2B), cv(d.B2A)
+				if typ == "nat-rev" {
+					old.origIP, old.origSIP, old.tunIP = d.OrigDst.String(), d.OrigSrc.String(), d.TunIP.String()
+					old.origPort, old.origSPort = d.OrigPort, d.OrigSPort
+				}
+			}
+			oldKey = k.AsBytes()
+			newK, newV = conntrack.GetKeyValueTypeFromVersion(2, k.AsBytes(), v.AsBytes())
+			for i := 2; i < conntrack.MapParams.Version; i++ {
+				newK, newV = newK.Upgrade(), newV.Upgrade()
+			}
+		default:
+			mk := func(l c14OldLeg) v3.Leg {
+				return v3.Leg{Seqno: l.seqno, SynSeen: l.syn, AckSeen: l.ack, FinSeen: l.fin, RstSeen: l.rst, Approved: l.approved, Opener: l.opener, Ifindex: l.ifindex}
+			}
+			var vi v3.ValueInterface
+			if ipver == 4 {
+				k := v3.NewKey(proto, ipA, pa, ipB, pb)
+				var v v3.Value
+				switch typ {
+				case "normal":
+					v = v3.NewValueNormal(lastSeen, flags, mk(la), mk(lb))
+				case "nat-fwd":
+					v = v3.NewValueNATForward(lastSeen, flags, v3.NewKey(proto, ipB, pb, orig, origPort))
+					v.SetNATSport(natSPort)
+				default:
+					v = v3.NewValueNATReverseSNAT(lastSeen, flags, mk(la), mk(lb), tun, orig, orig, origPort)
+					v.SetOrigSport(origSPort)
+				}
+				binary.LittleEndian.PutUint64(v[v3.VoRSTSeen:], rstSeen)
+				vi, oldKey = v, k.AsBytes()
+				newK, newV = k.Upgrade(), v.Upgrade()
+			} else {
+				k := v3.NewKeyV6(proto, ipA, pa, ipB, pb)
+				var v v3.ValueV6
+				switch typ {
+				case "normal":
+					v = v3.NewValueV6Normal(lastSeen, flags, mk(la), mk(lb))
+				case "nat-fwd":
+					rk := v3.NewKeyV6(proto, ipB, pb, orig, origPort)
+					v = v3.NewValueV6NATForward(lastSeen, flags, rk)
+					copy(v[v3.VoRevKeyV6:v3.VoRevKeyV6+v3.KeyV6Size], rk[:]) // see upgraded(): constructor copies 16 bytes only
+					v.SetNATSport(natSPort)
+				default:
+					v = v3.NewValueV6NATReverse(lastSeen, flags, mk(la), mk(lb), nil, nil, origPort)
+					v.SetOrigSport(origSPort)
+				}
+				binary.LittleEndian.PutUint64(v[v3.VoRSTSeen:], rstSeen)
+				vi, oldKey = v, k.AsBytes()
+				newK, newV = k.Upgrade(), v.Upgrade()
+			}
+			old = view{typ: vi.Type(), flags: uint32(vi.Flags()), lastSeen: vi.LastSeen(), rstSeen: vi.RSTSeen()}
+			if typ == "nat-fwd" {
+				old.revKey, old.natSPort = string(vi.ReverseNATKey().AsBytes()), vi.NATSPort()
+			} else {
+				d := vi.Data()
+				cv := func(l v3.Leg) c14OldLeg {
+					return c14OldLeg{l.Seqno, l.SynSeen, l.AckSeen, l.FinSeen, l.RstSeen, l.Approved, l.Opener, l.Ifindex}
+				}
+				old.a, old.b = cv(d.A2B), cv(d.B2A)
+				if typ == "nat-rev" {
+					old.origIP, old.origSIP, old.tunIP = d.OrigDst.String(), d.OrigSrc.String(), d.TunIP.String()
+					old.origPort, old.origSPort = d.OrigPort, d.OrigSPort
+				}
+			}
+		}
+		// the same connection, read through the CURRENT version's accessors
+		if string(newK.AsBytes()) != string(oldKey) {
+			t.Fatalf("C14 upgrade %s: key changed: % x -> % x", chain, oldKey, newK.AsBytes())
+		}
+		var cur conntrack.ValueInterface
+		if ipver == 4 {
+			cur = conntrack.ValueFromBytes(newV.AsBytes())
+		} else {
+			cur = conntrack.ValueV6FromBytes(newV.AsBytes())
+		}
+		got := view{typ: cur.Type(), flags: cur.Flags(), lastSeen: cur.LastSeen(), rstSeen: cur.RSTSeen()}
+		if typ == "nat-fwd" {
+			got.revKey, got.natSPort = string(cur.ReverseNATKey().AsBytes()), cur.NATSPort()
+		} else {
+			d := cur.Data()
+			cv := func(l conntrack.Leg) c14OldLeg {
+				if l.Bytes != 0 || l.Packets != 0 || l.Workload {
+					t.Fatalf("C14 upgrade %s (%s): leg fields that did not exist before are not zero: %+v", chain, typ, l)
+				}
+				return c14OldLeg{l.Seqno, l.SynSeen, l.AckSeen, l.FinSeen, l.RstSeen, l.Approved, l.Opener, l.Ifindex}
+			}
+			if chain != "v2->v4" { // version 3 already has the counters
+				cv = func(l conntrack.Leg) c14OldLeg {
+					return c14OldLeg{l.Seqno, l.SynSeen, l.AckSeen, l.FinSeen, l.RstSeen, l.Approved, l.Opener, l.Ifindex}
+				}
+			}
+			got.a, got.b = cv(d.A2B), cv(d.B2A)
+			if typ == "nat-rev" {
+				got.origIP, got.origSIP, got.tunIP = d.OrigDst.String(), d.OrigSrc.String(), d.TunIP.String()
+				got.origPort, got.origSPort = d.OrigPort, d.OrigSPort
+			}
+		}
+		if got != old {
+			t.Fatalf("C14 upgrade %s (%s entry): the converted entry does not describe the connection the old entry described\n old (read with the old version's accessors): %+v\n new (read with the current accessors):        %+v\n (rst_seen did not exist in version 2 and must be 0: entryDone treats a non-zero value as 'RST seen, residual traffic' and applies a 2 minute limit)",
+				chain, typ, old, got)
+		}
+		// and through the kernel program's own definition of the value
+		c, err := layouts[ipver].Decode("ct_value", newV.AsBytes())
+		if err != nil {
+			t.Fatalf("C14 upgrade %s: converted value is not a struct calico_ct_value: %v", chain, err)
+		}
+		if c["rst_seen"] != cnative.U(uint64(old.rstSeen)) || c["last_seen"] != cnative.U(uint64(old.lastSeen)) || c["type"] != cnative.U(uint64(old.typ)) ||
+			c["flags_all"] != cnative.U(uint64(old.flags)) {
+			t.Fatalf("C14 upgrade %s (%s entry): struct calico_ct_value reads rst_seen=%s last_seen=%s type=%s flags=%s; the old entry said rst_seen=%d last_seen=%d type=%d flags=%d",
+				chain, typ, c["rst_seen"], c["last_seen"], c["type"], c["flags_all"], old.rstSeen, old.lastSeen, old.typ, old.flags)
+		}
+		if typ != "nat-fwd" {
+			for n, want := range map[string]bool{"ab_syn_seen": old.a.syn, "ab_ack_seen": old.a.ack, "ab_fin_seen": old.a.fin, "ab_rst_seen": old.a.rst,
+				"ba_syn_seen": old.b.syn, "ba_ack_seen": old.b.ack, "ba_fin_seen": old.b.fin, "ba_rst_seen": old.b.rst} {
+				if (c[n] == "1") != want {
+					t.Fatalf("C14 upgrade %s (%s entry): struct calico_ct_value.%s reads %s, the old entry said %v", chain, typ, n, c[n], want)
+				}
+			}
+		}
+		legBits := 0
+		for _, b := range []bool{la.syn, la.ack, la.fin, la.rst, lb.syn, lb.ack, lb.fin, lb.rst} {
+			if b {
+				legBits++
+			}
+		}
+		shape := fmt.Sprintf("%s %s flags=%d legbits=%d rst=%v", chain, typ, c14ClsU(uint64(flags)), legBits, rstSeen != 0)
+		rec.Case(typ != "nat-fwd" && flags != 0 && legBits > 0, shape, func() any {
+			return map[string]any{"chain": chain, "type": typ, "flags": flags, "last_seen": int64(lastSeen), "created": int64(created), "legA": fmt.Sprintf("%+v", la), "legB": fmt.Sprintf("%+v", lb)}
+		}, "chain:"+chain, "type:"+typ)
+	})
+}
+
+func c14ClsU(v uint64) int {
+	switch {
+	case v == 0:
+		return 0
+	case v < 256:
+		return 1
+	case v < 65535:
+		return 2
+	default:
+		return 3
 	}
 }
